@@ -29,6 +29,8 @@ import (
 	"encoding/hex"
 	"fmt"
 	"net"
+	"runtime"
+	"runtime/debug"
 	"strings"
 	"sync"
 	"time"
@@ -216,15 +218,23 @@ func freePort() int {
 	return p
 }
 
+// segment is a part of a hostile server's script: data is written (in slices) once the peer has sent at least
+// waitRecv octets in total (bounded wait; 0 = at once).
+type segment struct {
+	data     []byte
+	slices   []int
+	waitRecv int
+}
+
 // hostileServer is a loopback TCP server that, for every accepted connection,
-// discards what the peer sends and writes script (in slices), then half-closes
-// and waits until the peer has closed its side: at that moment the peer (lal,
+// discards what the peer sends and writes its script, then half-closes and
+// waits until the peer has closed its side: at that moment the peer (lal,
 // which parses in its reading goroutine) has consumed everything it is going to
 // consume.
 type hostileServer struct {
 	ln     net.Listener
 	Addr   string
-	script func(conn int) ([]byte, []int)
+	script func(conn int) []segment
 
 	mu       sync.Mutex
 	accepted int
@@ -234,6 +244,13 @@ type hostileServer struct {
 }
 
 func newHostileServer(script func(conn int) ([]byte, []int)) *hostileServer {
+	return newHostileServerSeg(func(i int) []segment {
+		d, sl := script(i)
+		return []segment{{data: d, slices: sl}}
+	})
+}
+
+func newHostileServerSeg(script func(conn int) []segment) *hostileServer {
 	ln, err := net.Listen("tcp", "127.0.0.1:0")
 	if err != nil {
 		panic(pbt.HarnessError{Msg: "c13: cannot listen on loopback: " + err.Error()})
@@ -267,35 +284,65 @@ func (h *hostileServer) serve(c net.Conn, idx int) {
 		h.mu.Unlock()
 	}()
 	peerClosed := make(chan struct{})
+	var rmu sync.Mutex
+	received := 0
 	go func() {
 		buf := make([]byte, 4096)
 		for {
-			if _, err := c.Read(buf); err != nil {
+			n, err := c.Read(buf)
+			rmu.Lock()
+			received += n
+			rmu.Unlock()
+			if err != nil {
 				close(peerClosed)
 				return
 			}
 		}
 	}()
-	data, sizes := h.script(idx)
-	_ = c.SetWriteDeadline(time.Now().Add(20 * time.Second))
-	for _, n := range sizes {
-		if len(data) == 0 {
+	_ = c.SetWriteDeadline(time.Now().Add(30 * time.Second))
+	for _, seg := range h.script(idx) {
+		if seg.waitRecv > 0 {
+			deadline := time.Now().Add(5 * time.Second)
+			for time.Now().Before(deadline) {
+				rmu.Lock()
+				got := received
+				rmu.Unlock()
+				if got >= seg.waitRecv {
+					break
+				}
+				select {
+				case <-peerClosed:
+					deadline = time.Now()
+				case <-time.After(200 * time.Microsecond):
+				}
+			}
+		}
+		data := seg.data
+		failed := false
+		for _, n := range seg.slices {
+			if len(data) == 0 {
+				break
+			}
+			if n <= 0 {
+				continue
+			}
+			if n > len(data) {
+				n = len(data)
+			}
+			if _, err := c.Write(data[:n]); err != nil {
+				failed = true
+				break
+			}
+			data = data[n:]
+		}
+		if !failed && len(data) > 0 {
+			if _, err := c.Write(data); err != nil {
+				failed = true
+			}
+		}
+		if failed {
 			break
 		}
-		if n <= 0 {
-			continue
-		}
-		if n > len(data) {
-			n = len(data)
-		}
-		if _, err := c.Write(data[:n]); err != nil {
-			data = nil
-			break
-		}
-		data = data[n:]
-	}
-	if len(data) > 0 {
-		_, _ = c.Write(data)
 	}
 	if tc, ok := c.(*net.TCPConn); ok {
 		_ = tc.CloseWrite()
@@ -340,3 +387,61 @@ func (h *hostileServer) close() {
 }
 
 func lbl(format string, a ...interface{}) string { return fmt.Sprintf(format, a...) }
+
+// memBackpressure keeps the test binary away from its address-space limit (check.json mem_limit_mb): lal keeps a
+// client session that failed before "play" succeeded (with whatever message buffer a misaligned chunk stream made it
+// allocate, up to 16 MiB) until the pull timeout expires, so fast cases pile such sessions up.  Waiting for them to
+// expire is harness pacing, not a verdict.
+func memBackpressure() {
+	var m runtime.MemStats
+	for i := 0; i < 40; i++ {
+		runtime.ReadMemStats(&m)
+		if m.HeapAlloc < 900<<20 {
+			return
+		}
+		debug.FreeOSMemory()
+		time.Sleep(100 * time.Millisecond)
+	}
+}
+
+// spinningGoroutine samples all goroutine stacks n times (gap apart) and reports a goroutine whose stack contains
+// marker and which was running / runnable inside the same lal function in every sample: it burns CPU without making
+// progress (all its input was delivered long ago).  A goroutine that is parked, that moved to another function or that
+// has gone is not spinning.
+func spinningGoroutine(marker string, n int, gap time.Duration) (bool, string) {
+	type obs struct{ fn, stack string }
+	sample := func() map[string]obs {
+		out := map[string]obs{}
+		for _, blk := range strings.Split(pbt.AllGoroutines(), "\n\n") {
+			if !strings.Contains(blk, marker) {
+				continue
+			}
+			hdr := strings.SplitN(blk, "\n", 2)[0]
+			if !strings.Contains(hdr, "[running") && !strings.Contains(hdr, "[runnable") {
+				continue
+			}
+			id := hdr
+			if i := strings.Index(hdr, " ["); i > 0 {
+				id = hdr[:i]
+			}
+			out[id] = obs{fn: pbt.InnermostLalFrame(blk), stack: blk}
+		}
+		return out
+	}
+	cur := sample()
+	for i := 1; i < n && len(cur) > 0; i++ {
+		time.Sleep(gap)
+		next := sample()
+		for id, o := range cur {
+			if p, ok := next[id]; !ok || p.fn == "" || !strings.Contains(p.stack, marker) {
+				delete(cur, id)
+			} else {
+				_ = o
+			}
+		}
+	}
+	for _, o := range cur {
+		return true, o.stack
+	}
+	return false, ""
+}
